@@ -127,7 +127,7 @@ func decimalWrites(cd *codec, rv *Result, buf ssa.Value) []decWrite {
 }
 
 // definitelyWritten runs the must-analysis and returns, per success return, whether buf is written.
-func definitelyWritten(rv *Result, fn *ssa.Function, buf ssa.Value, writes map[ssa.Instruction]bool) map[*ssa.Return]bool {
+func definitelyWritten(rv *Result, fn *ssa.Function, buf ssa.Value, writes map[ssa.Instruction]bool, probes map[ssa.Instruction]bool) (map[*ssa.Return]bool, map[ssa.Instruction]bool) {
 	type state struct {
 		written bool
 		g       map[ssa.Value]bool // guarded: value true => written
@@ -135,6 +135,7 @@ func definitelyWritten(rv *Result, fn *ssa.Function, buf ssa.Value, writes map[s
 	}
 	top := func() *state { return &state{written: true, all: true} }
 	out := map[*ssa.BasicBlock]*state{}
+	ins := map[*ssa.BasicBlock]*state{}
 	for _, b := range fn.Blocks {
 		if rv.Exec[b] {
 			out[b] = top()
@@ -260,6 +261,7 @@ func definitelyWritten(rv *Result, fn *ssa.Function, buf ssa.Value, writes map[s
 				}
 			}
 			// transfer through the block
+			ins[b] = in
 			cur := &state{written: in.written, all: in.all, g: in.g}
 			for _, instr := range b.Instrs {
 				if writes[instr] {
@@ -285,7 +287,28 @@ func definitelyWritten(rv *Result, fn *ssa.Function, buf ssa.Value, writes map[s
 	for _, ret := range successReturns(rv, 2) {
 		res[ret] = out[ret.Block()] != nil && out[ret.Block()].written
 	}
-	return res
+	// state just before each probe instruction
+	pres := map[ssa.Instruction]bool{}
+	for pr := range probes {
+		b := pr.Block()
+		if !rv.Exec[b] {
+			continue
+		}
+		written := false
+		if ins[b] != nil {
+			written = ins[b].written
+		}
+		for _, instr := range b.Instrs {
+			if instr == pr {
+				break
+			}
+			if writes[instr] {
+				written = true
+			}
+		}
+		pres[pr] = written
+	}
+	return res, pres
 }
 
 func runC11(a *A) {
@@ -356,9 +379,16 @@ func runC11(a *A) {
 		}
 		ws := decimalWrites(cd, rv, buf)
 		wset := map[ssa.Instruction]bool{}
+		probes := map[ssa.Instruction]bool{}
 		for _, x := range ws {
 			nonEmpty := true
 			switch x.Kind {
+			case "byte":
+				// only digits count: a sign or the decimal point is not an integer part
+				nonEmpty = x.ByteK >= '0' && x.ByteK <= '9'
+				if x.ByteK == '.' {
+					probes[x.In] = true
+				}
 			case "str":
 				nonEmpty = x.Format != ""
 			case "printf":
@@ -371,10 +401,17 @@ func runC11(a *A) {
 			}
 		}
 		// R1
-		for ret, ok := range definitelyWritten(rv, rv.Fn, buf, wset) {
+		rets, dots := definitelyWritten(rv, rv.Fn, buf, wset, probes)
+		for ret, ok := range rets {
 			if !ok {
 				report(finding{"C11-R1", "written@decimal" + tag, w.posOf(ret),
-					fmt.Sprintf("DECIMAL(%d,%d): a success return is reachable without anything having been written to the text (value 0 decodes to an empty, NULL-looking value)", p, s)})
+					fmt.Sprintf("DECIMAL(%d,%d): a success return is reachable without any digit having been written to the text (value 0 decodes to an empty, NULL-looking or sign-only value)", p, s)})
+			}
+		}
+		for in, ok := range dots {
+			if !ok {
+				report(finding{"C11-R1", "written@decimal" + tag, w.posOf(in),
+					fmt.Sprintf("DECIMAL(%d,%d): the decimal point can be written without an integer digit before it (0.5 decodes to \".5\")", p, s)})
 			}
 		}
 		// R2 + R3
